@@ -177,6 +177,26 @@ def ev(node, env):
             return len(args[0])
         if node.func.id == 'bool' and len(args) == 1:
             return bool(args[0])
+        if node.func.id in ('sorted', 'list', 'tuple', 'reversed') and len(args) == 1 and not node.keywords and isinstance(args[0], (list, tuple, dict, set, range)):
+            # containers of the interpreter's own values (class-/module-level literal tables)
+            items = list(args[0])
+            if node.func.id == 'sorted':
+                try:
+                    return sorted(items)
+                except TypeError:
+                    raise Unsupported('sorted() of incomparable items')
+            if node.func.id == 'reversed':
+                return items[::-1]
+            return tuple(items) if node.func.id == 'tuple' else items
+        if node.func.id == 'range' and 1 <= len(args) <= 3 and not node.keywords and all(isinstance(x, int) for x in args):
+            r = range(*args)
+            if len(r) > 100000:
+                raise Unsupported('range too long')
+            return list(r)
+        if node.func.id == 'enumerate' and len(args) == 1 and isinstance(args[0], (list, tuple)):
+            return [(i, x) for i, x in enumerate(args[0])]
+        if node.func.id == 'zip' and args and all(isinstance(x, (list, tuple)) for x in args):
+            return [tuple(t) for t in zip(*args)]
         if node.func.id in ('bytearray', 'bytes') and len(args) <= 1:
             mk = bytearray if node.func.id == 'bytearray' else bytes       # the interpreter's own byte strings
             if not args:
@@ -187,7 +207,18 @@ def ev(node, env):
                 return mk(args[0])
             raise Unsupported('bytes(...) of %r' % (args[0],))
     if isinstance(node, ast.Call) and isinstance(node.func, ast.Attribute) and node.func.attr == 'bit_length' and not node.args:
-        return ev(node.func.value, env).bit_length()
+        v = ev(node.func.value, env)
+        if not isinstance(v, int):
+            raise Unsupported('bit_length of %s' % type(v).__name__)
+        return v.bit_length()
+    if isinstance(node, ast.Call) and isinstance(node.func, ast.Attribute) and node.func.attr in ('items', 'keys', 'values', 'get') and not node.keywords:
+        b = ev(node.func.value, env)
+        if isinstance(b, dict):
+            a_ = [ev(x, env) for x in node.args]
+            if node.func.attr == 'get' and 1 <= len(a_) <= 2:
+                return b.get(*a_)
+            if not a_:
+                return [tuple(x) if node.func.attr == 'items' else x for x in getattr(b, node.func.attr)()]
     if isinstance(node, ast.Tuple):
         return tuple(ev(e, env) for e in node.elts)
     if isinstance(node, ast.Subscript) and not isinstance(node.slice, ast.Slice):
